@@ -135,4 +135,23 @@ Section ProxyProofs.
         * split; auto. split; [exists (rest1 ++ rest0); rewrite app_assoc, <- B1; exact B0|].
           split; [discriminate|]. split; auto.
   Qed.
+
+  (* over all fetch histories: whatever the cache holds matches its descriptor, and a
+     fetch served from it hands out (a prefix of) matching bytes *)
+  Theorem proxy_reach_ok m : proxy_reach H m -> mem_ok H m.
+  Proof.
+    induction 1 as [|limit stop m d comb evs ks rs ce m' R IH E].
+    - intros d bs; discriminate.
+    - exact (proj1 (proxy_fetch_spec limit stop m d comb evs ks rs ce m' IH E)).
+  Qed.
+
+  Theorem proxy_history_hit limit stop m d comb evs ks rs ce m' bs :
+    proxy_reach H m -> mem_get m d = Some bs ->
+    proxy_fetch H limit stop m d comb evs ks = ((rs, ce), m') ->
+    matches_desc H (d_dg d) (d_sz d) bs /\ m' = m /\ ce = None /\
+    exists rest, bs = concat (map fst rs) ++ rest.
+  Proof.
+    intros R G E. pose proof (proxy_fetch_spec limit stop m d comb evs ks rs ce m' (proxy_reach_ok m R) E) as [_ S].
+    rewrite G in S. exact S.
+  Qed.
 End ProxyProofs.
